@@ -2,6 +2,8 @@
    `Trigger.run` / `Trigger.runG`, encode effects.  I/O glue only — no theorem depends on it. -/
 import DeepModel.Driver.Proto
 import DeepModel.Model.Trigger
+import DeepModel.Model.HandlerTL
+import DeepModel.Model.CallbacksW
 
 namespace TraceIO
 open Lean Proto Callbacks Trigger
@@ -122,9 +124,14 @@ def handleRun (j : Json) : Except String Json := do
     match alone[t]? with
     | some r => decide (projEff t g.2 = r.2) && decide (g.1 t = r.1)
     | none => false)
+  -- the same schedule on the handler written over the translated ThreadLocal methods, one store for all threads keyed
+  -- by the thread object (Model/HandlerTL; `c15_handler_over_thread_local`, executed)
+  let gt := HandlerTL.runGTL cfg TLocal.St.empty gs
+  let tlAgrees := decide (gt.2 = g.2) && (List.range threads.length).all (fun t =>
+    decide (gt.1.store t = HandlerTL.embSlot (g.1 t)))
   let out := alone.map (fun r => Json.mkObj [("effects", Json.arr (r.2.map effJson).toArray), ("slot", slotJson r.1)])
   pure (Json.mkObj [("threads", Json.arr out.toArray), ("global_agrees", toJson agrees),
-                    ("triggers", toJson cfg.length)])
+                    ("tl_agrees", toJson tlAgrees), ("triggers", toJson cfg.length)])
 
 /-! invocation trees: {"path","func","frame","line","body":[item..],"exit":["ret"|"raise", line, arg]},
     item = ["line", n] | ["caught", n, arg] | ["call", tree] -/
@@ -197,9 +204,10 @@ def handleForest (j : Json) : Except String Json := do
   let evs := flattenForest forest 0
   let noClash := forest.all (fun i => i.noClashB)
   let noStack := (forest.zipIdx).all (fun (i, k) => i.noStackB (opens cfg) [k])
+  let noClashW := (forest.zipIdx).all (fun (i, k) => i.noClashWB (opens cfg) [k] [])
   let r := run cfg none evs
   pure (Json.mkObj [("events", Json.arr (evs.map evJson).toArray), ("no_clash", toJson noClash),
-                    ("no_stack", toJson noStack), ("decorated_ok", toJson (decide (evs = ann))),
+                    ("no_stack", toJson noStack), ("no_clash_w", toJson noClashW), ("decorated_ok", toJson (decide (evs = ann))),
                     ("slot_unset", toJson r.1.isNone)])
 
 def handle1 (j : Json) : Except String Json := do
